@@ -10,7 +10,8 @@ from checks import stack_common as ST
 PROPERTY = "C13"
 LEVEL = "fault_enumeration"
 CODE = ["sx/symsql.py (model of sqlite3, validated against the real library by bin/selftest)", "yowsup/axolotl/store/sqlite/liteaxolotlstore.py", "litesessionstore.py", "liteidentitykeystore.py", "liteprekeystore.py", "litesignedprekeystore.py", "litesenderkeystore.py"]
-BOUNDS = {"quick": "[+ 5 pairs of profile directory names] " 
+BOUNDS = {"quick": "[+ prekey op setAsSent(7,5); durable case with text-typed columns] " 
+                   "[+ 5 pairs of profile directory names] " 
                    "[+ death kinds {killed, interrupted, commit refused}; kill: child process, 3 operations x record size {64 B, 1.5 MB, 3.5 MB} x {dies at commit, survives}] " 
                    "[+ journal premise (PRAGMA journal_mode of every connection) on every path] " 
                    "per table: every sequence of <=2 operations over {store A, store B (replace), delete, ...} on 2 keys, crash at every statement/commit boundary of the last operation, reopen; "
